@@ -514,7 +514,7 @@ type rspIndex struct {
 func GetItemsByIDs[T any](ids []string, getItem GetItemFunc[*T], balances CommonStateContextI) ([]*T, error) {
 	var (
 		itemC     = make(chan rspIndex, len(ids))
-		stateErrC = make(chan error, len(ids))
+		stateErrC = make(chan errorIndex, len(ids))
 		errC      = make(chan errorIndex, len(ids))
 		wg        sync.WaitGroup
 	)
@@ -526,7 +526,10 @@ func GetItemsByIDs[T any](ids []string, getItem GetItemFunc[*T], balances Common
 			item, err := getItem(id, balances)
 			if err != nil {
 				if err != util.ErrValueNotPresent {
-					stateErrC <- err
+					stateErrC <- errorIndex{
+						err:   err,
+						index: idx,
+					}
 					return
 				}
 
@@ -554,12 +557,18 @@ func GetItemsByIDs[T any](ids []string, getItem GetItemFunc[*T], balances Common
 	wg.Wait()
 	close(itemC)
 	close(errC)
+	close(stateErrC)
 
-	// check internal error first
-	select {
-	case err := <-stateErrC:
-		return nil, err
-	default:
+	// check internal error first: the one of the lowest index, whichever goroutine finished first
+	stateErrs := make([]errorIndex, 0, len(ids))
+	for ei := range stateErrC {
+		stateErrs = append(stateErrs, ei)
+	}
+	if len(stateErrs) > 0 {
+		sort.SliceStable(stateErrs, func(i, j int) bool {
+			return stateErrs[i].index < stateErrs[j].index
+		})
+		return nil, stateErrs[0].err
 	}
 
 	errIdxs := make([]errorIndex, 0, len(ids))
